@@ -465,6 +465,15 @@ func runC17(c *Ctx) *Violation {
 	if v := safely(c, "gen", func() { SS, err = mxj.NewMapXmlSeq([]byte(ssdoc)) }); v != nil || err != nil {
 		return nil
 	}
+	if t.Draw(3) == 2 {
+		// the shared MapSeq after a JSON round trip: every "#seq" is a float64
+		var cp mxj.Map
+		if v := safely(c, "gen", func() { cp, err = mxj.Map(SS).Copy() }); v != nil || err != nil {
+			return nil
+		}
+		SS = mxj.MapSeq(cp)
+		c.Put("shared_mapseq_through_json", true)
+	}
 	escape := t.Draw(3) == 2
 	applyOpts := func() {
 		if escape {
